@@ -1028,6 +1028,21 @@ class FnEmitter:
             if self.L.needs_out(rc_):
                 self.call(e, dest=dest)
                 return
+        if k == 'InitListExpr':
+            # aggregate initialisation: every member is initialised IN PLACE from its initialiser (no temporary, no byte copy
+            # of a member that owns an element)
+            rec = self.L.records.get(self.canon_t(e))
+            fields = [c for c in (rec or {}).get('inner', []) if c.get('kind') == 'FieldDecl']
+            inits = children(e)
+            if rec is not None and not rec.get('bases') and len(fields) == len(inits):
+                for fd, init in zip(fields, inits):
+                    fct = self.tm.ctype(self.tm.canon_of(fd['type']))
+                    place = '&(%s)->%s' % (self.paren(dest), fd['name'])
+                    if fct == 'E' or fct.startswith('struct '):
+                        self.construct_into(init, place)
+                    else:
+                        self.pre.append('%s = %s;' % (deref(place), self.val(init)))
+                return
         self.pre.append('%s = %s;' % (deref(dest), self.rv(e)))
 
     def construct_value(self, e):
